@@ -128,16 +128,32 @@ struct RunResult {
     runs_done: u64,
     budget_hit: bool,
     first_digests: Vec<(u64, u64)>,
+    lattice_found: bool,
 }
 
 /// One simulated run: boot, then operations from the generator until it stops.
-fn one_run(prop: Prop, base_seed: u64, index: u64, long: bool, known: &[String], roots: &[model::Model], stats: &mut Stats) -> (Trace, Option<Violation>) {
+fn one_run(prop: Prop, base_seed: u64, index: u64, long: bool, lattice: bool, known: &[String], roots: &[model::Model], stats: &mut Stats) -> (Trace, Option<Violation>) {
     let seed = gen::run_seed(base_seed, prop, 0, index);
-    let mut g = gen::Gen::new(prop, seed, long);
-    let boot = gen::boot_for(base_seed, index, &mut g.rng, roots);
+    let mut g = gen::Gen::new(prop, if lattice { rng::mix(&[seed, 0x1A77]) } else { seed }, long);
+    let boot = if lattice {
+        // the lattice pass: boot entry = run index, at most two operations afterwards
+        g.swarm.len = g.rng.below(3) as usize;
+        match synth::lattice(index, &mut g.rng) {
+            Some(m) => Boot::Text(m.to_fen(true), Route::Sfen),
+            None => {
+                stats.hit("lattice_entry_without_sound_arrangement");
+                return (Trace { boot: Boot::Start(518, 518), ops: vec![] }, None);
+            }
+        }
+    } else {
+        gen::boot_for(base_seed, index, &mut g.rng, roots)
+    };
     let mut trace = Trace { boot: boot.clone(), ops: vec![] };
     stats.runs += 1;
     stats.eat_str(&boot.text());
+    if lattice || index % 8 == 7 {
+        stats.hit("boot_slider_lattice");
+    }
     match &boot {
         Boot::Start(..) => stats.hit("boot_start_constructor"),
         Boot::Text(_, r) => stats.hit(&format!("boot_text_{}", r.name())),
@@ -147,6 +163,9 @@ fn one_run(prop: Prop, base_seed: u64, index: u64, long: bool, known: &[String],
         Ok(w) => w,
         Err(Stop::Violation(v)) => return (trace, Some(v)),
         Err(Stop::BootRejected) => {
+            if std::env::var("VERIF_DEBUG_BOOT").is_ok() {
+                eprintln!("boot rejected: {}", boot.text());
+            }
             cx.stats.boot_rejected += 1;
             return (trace, None);
         }
@@ -177,7 +196,7 @@ fn one_run(prop: Prop, base_seed: u64, index: u64, long: bool, known: &[String],
     }
 }
 
-fn run_batch(prop: Prop, base_seed: u64, first: u64, runs: u64, threads: usize, known: &[String], budget_s: f64, want_samples: bool, long: bool) -> RunResult {
+fn run_batch(prop: Prop, base_seed: u64, first: u64, runs: u64, threads: usize, known: &[String], budget_s: f64, want_samples: bool, long: bool, lattice: bool) -> RunResult {
     let roots = gen::roots();
     let next = AtomicU64::new(first);
     let end = first + runs;
@@ -208,7 +227,7 @@ fn run_batch(prop: Prop, base_seed: u64, first: u64, runs: u64, threads: usize, 
                         break;
                     }
                     local.digest = 0xcbf2_9ce4_8422_2325;
-                    let (trace, v) = one_run(prop, base_seed, i, long, known, &roots, &mut local);
+                    let (trace, v) = one_run(prop, base_seed, i, long, lattice, known, &roots, &mut local);
                     let d = local.digest;
                     combined.fetch_xor(rng::mix(&[i, d]), Ordering::Relaxed);
                     if i < first + 256 {
@@ -256,6 +275,7 @@ fn run_batch(prop: Prop, base_seed: u64, first: u64, runs: u64, threads: usize, 
         wall_s: t0.elapsed().as_secs_f64(),
         budget_hit: budget_hit.load(Ordering::Relaxed),
         first_digests: fd,
+        lattice_found: false,
     }
 }
 
@@ -270,14 +290,29 @@ fn cmd_run(a: &Args) -> i32 {
     let recheck = a.num("recheck", 0);
     let first = a.num("first", 0);
     let long = a.get("tier") == Some("thorough");
-    let res = run_batch(prop, seed, first, runs, threads, &known, budget_s, true, long);
+    let mut res = run_batch(prop, seed, first, runs, threads, &known, budget_s, true, long, false);
+    // the slider-lattice pass: every (slider square, relevant blocker subset) pair as a boot state
+    let lattice_runs = a.num("lattice", 0);
+    let mut lattice_res = None;
+    if lattice_runs > 0 && res.found.is_empty() {
+        let lr = run_batch(prop, seed, 0, lattice_runs, threads, &known, budget_s, false, false, true);
+        res.stats.merge(&lr.stats);
+        res.wall_s += lr.wall_s;
+        res.combined_digest ^= lr.combined_digest.rotate_left(1);
+        res.runs_done += lr.runs_done;
+        lattice_res = Some((lr.runs_done, lr.found.len()));
+        if !lr.found.is_empty() {
+            res.found = lr.found;
+            res.lattice_found = true;
+        }
+    }
 
     // determinism re-check: the first runs again, single-threaded
     let mut recheck_ok = true;
     let mut rechecked = 0u64;
     if recheck > 0 && res.found.is_empty() {
         let n = recheck.min(runs).min(256);
-        let again = run_batch(prop, seed, first, n, 1, &known, budget_s, false, long);
+        let again = run_batch(prop, seed, first, n, 1, &known, budget_s, false, long, false);
         rechecked = n;
         let a1: Vec<(u64, u64)> = res.first_digests.iter().copied().filter(|x| x.0 < first + n).collect();
         recheck_ok = a1 == again.first_digests;
@@ -288,7 +323,7 @@ fn cmd_run(a: &Args) -> i32 {
     if let Some(f) = res.found.first() {
         let (min_t, min_v, tests) = shrink::shrink(prop, &known, &f.trace, &f.violation);
         let _ = std::fs::create_dir_all(&replay_dir);
-        let path = format!("{}/{}-{}-{}-{}.replay", replay_dir, prop.name(), backend(), seed, f.index);
+        let path = format!("{}/{}-{}-{}-{}{}.replay", replay_dir, prop.name(), backend(), seed, if res.lattice_found { "lattice" } else { "" }, f.index);
         let rf = ReplayFile {
             property: prop.name().to_string(),
             class: min_v.class.clone(),
@@ -322,6 +357,7 @@ fn cmd_run(a: &Args) -> i32 {
     j.push_str(&format!("\"seed\": {},\n\"first_index\": {},\n\"runs_requested\": {},\n\"runs\": {},\n", seed, first, runs, res.runs_done));
     j.push_str(&format!("\"steps\": {},\n\"plies\": {},\n\"oracle_evaluations\": {},\n", res.stats.steps, res.stats.plies, res.stats.oracle_evals));
     j.push_str(&format!("\"distinct_states\": {},\n\"distinct_capped\": {},\n", res.distinct, res.distinct_capped));
+    j.push_str(&format!("\"lattice_runs\": {},\n", lattice_res.map_or(0, |x| x.0)));
     j.push_str(&format!("\"foreign_aborts\": {},\n\"boot_rejected\": {},\n", res.stats.foreign_aborts, res.stats.boot_rejected));
     j.push_str(&format!("\"wall_s\": {:.3},\n\"budget_hit\": {},\n", res.wall_s, res.budget_hit));
     j.push_str(&format!("\"digest\": {},\n", json_str(&format!("{:016x}", res.combined_digest))));
@@ -408,7 +444,7 @@ fn cmd_replay(a: &Args) -> i32 {
 
 fn cmd_digest(a: &Args) -> i32 {
     let prop = Prop::parse(a.get("prop").unwrap_or("")).expect("--prop");
-    let res = run_batch(prop, a.num("seed", 1), 0, a.num("runs", 1024), a.num("threads", 16) as usize, &load_known(a.get("known")), 3600.0, false, a.get("tier") == Some("thorough"));
+    let res = run_batch(prop, a.num("seed", 1), 0, a.num("runs", 1024), a.num("threads", 16) as usize, &load_known(a.get("known")), 3600.0, false, a.get("tier") == Some("thorough"), a.get("lattice-mode").is_some());
     println!("digest {} {:016x} runs={} steps={} violations={}", prop.name(), res.combined_digest, res.runs_done, res.stats.steps, res.found.len());
     0
 }
@@ -460,6 +496,10 @@ fn cmd_selftest() -> i32 {
         }
     }
     println!("selftest: {} curated roots checked", gen::roots().len());
+    if synth::lattice_entries() != 102_400 + 5_248 {
+        println!("selftest: slider lattice has {} entries, expected 107648", synth::lattice_entries());
+        bad += 1;
+    }
     // replay-file format round trip
     {
         let t = Trace {
